@@ -42,6 +42,11 @@ int main(int argc, char** argv) {
   int worker = atoi(arg(argc, argv, "--worker", "0").c_str());
   int nworkers = atoi(arg(argc, argv, "--nworkers", "1").c_str());
 
+  {  // open known findings: --known sig1,sig2
+    std::string kn = arg(argc, argv, "--known", "");
+    size_t pos = 0;
+    while (pos < kn.size()) { size_t c = kn.find(',', pos); if (c == std::string::npos) c = kn.size(); if (c > pos) special::g_extra.known.insert(kn.substr(pos, c - pos)); pos = c + 1; }
+  }
   special::init_zygote();  // forked before the first library call (C12)
 
   PropSpec ps = special::full_spec(prop, tier);
